@@ -115,4 +115,30 @@ RECURSIVE BitsNat(_)
 BitsNat(bs) == IF bs = <<>> THEN 0 ELSE bs[1] + 2 * BitsNat(Tail(bs))
 Small(v) == Len(v.bits) <= 30            \* evaluable with TLC's 32-bit integers
 ToInt(v) == IF v.neg THEN -BitsNat(v.bits) ELSE BitsNat(v.bits)
+
+(* ----------------- exact arithmetic on values ("Word") ----------------- *)
+\* TLC integers are 32 bit; sums of 32-bit unsigned numbers and their differences are computed
+\* on the bit lists instead (ripple carry / borrow), so the specification has no 2^30 bound.
+RestOf(x) == IF x = <<>> THEN <<>> ELSE Tail(x)
+BitOf(x) == IF x = <<>> THEN 0 ELSE x[1]
+RECURSIVE AddBitsC(_, _, _)
+AddBitsC(x, y, c) ==
+    IF x = <<>> /\ y = <<>> THEN (IF c = 1 THEN <<1>> ELSE <<>>)
+    ELSE LET t == BitOf(x) + BitOf(y) + c IN << t % 2 >> \o AddBitsC(RestOf(x), RestOf(y), t \div 2)
+AddBits(x, y) == Trim(AddBitsC(x, y, 0))
+RECURSIVE SubBitsB(_, _, _)          \* x - y for magnitudes with x >= y
+SubBitsB(x, y, br) ==
+    IF x = <<>> THEN <<>>
+    ELSE LET d == x[1] - BitOf(y) - br IN
+         << IF d < 0 THEN d + 2 ELSE d >> \o SubBitsB(Tail(x), RestOf(y), IF d < 0 THEN 1 ELSE 0)
+SubBits(x, y) == Trim(SubBitsB(x, y, 0))
+LtBits(x, y) == \/ Len(x) < Len(y)
+                \/ (Len(x) = Len(y) /\ \E i \in 1..Len(x) : x[i] < y[i] /\ \A j \in (i + 1)..Len(x) : x[j] = y[j])
+NormV(v) == IF v.bits = <<>> THEN Zero ELSE v
+AddV(a, b) == IF a.neg = b.neg THEN NormV([neg |-> a.neg, bits |-> AddBits(a.bits, b.bits)])
+              ELSE IF LtBits(a.bits, b.bits) THEN NormV([neg |-> b.neg, bits |-> SubBits(b.bits, a.bits)])
+              ELSE NormV([neg |-> a.neg, bits |-> SubBits(a.bits, b.bits)])
+NegV(v) == NormV([neg |-> ~v.neg, bits |-> v.bits])
+SubV(a, b) == AddV(a, NegV(b))
+InU32(v) == ~v.neg /\ Len(v.bits) <= 32
 =============================================================================
